@@ -27,8 +27,8 @@ PROP = dict(
     ],
     assumptions=[
         "two hard probes build the bindings generated for (a) a host file with `use m as p` and (b) two #host types of one name in two modules, embedded as "
-        "/repo/e2e_tests/test_host_funcs does (`mod generated; use generated::*;`): D104/D105; the main child crate re-exports publicly so that the run-time "
-        "round trip of all four import forms is tested independently of D104",
+        "/repo/e2e_tests/test_host_funcs does (`mod generated; use generated::*;`): D104/D105; the main child crate uses the same embedding, so the run-time "
+        "round trip of all four import forms also depends on the generated code compiling there",
         "1-tuples are not expressible as Abra host signatures and are not exercised",
         "signatures are built from the supported types only (functions, polymorphic and wildcard types are rejected by name_of_ty with a *NotSupported name)",
         "the quantifier over signatures is carried by the induction on types in the theorems; the correspondence samples it on the fixed 62-signature file",
